@@ -180,7 +180,78 @@ def padded_containers():
         yield f'pad-{kind}-p{pad}-c{int(clone)}-l{lines}-H{height}', page(body, 200, height), w.groups
 
 
-FAMILIES = [footnotes_in_columns, floats_definite, table_spans, footer_tables, column_spans,
+def inline_floats():
+    """Floats met inside a line (at the start of the line, after text, too wide to sit beside the text so that they
+    wait for the next line, two in one line) and long enough to continue on following pages."""
+    for where, flines, width, height in itertools.product(('start', 'after', 'two'), (3, 9, 16), (50, 190), (50, 80)):
+        w = Words()
+
+        def fl():
+            lines = '<br>'.join(w.take(1, 'oof', ('float',))[0] for _ in range(flines))
+            ids = [i for g in w.groups[-flines:] for i in g['words']]
+            del w.groups[-flines:]
+            w.groups.append({'kind': 'oof', 'words': ids, 'ctx': ['float']})
+            return f'<span style="float:left;width:{width}px">{lines}</span>'
+        body = f'<p>{w.take(1)[0]}</p>'
+        if where == 'start':
+            body += f'<p>{fl()}{w.take(2)[0]}</p>'
+        elif where == 'after':
+            body += f'<p>{w.take(2)[0]} {fl()} {w.take(2)[0]}</p>'
+        else:
+            body += f'<p>{w.take(1)[0]} {fl()} {w.take(1)[0]} {fl()} {w.take(1)[0]}</p>'
+        body += ''.join(f'<p>{w.take(1)[0]}</p>' for _ in range(4 * flines))
+        yield f'inline-float-{where}-l{flines}-w{width}-H{height}', page(body, 200, height), w.groups
+
+
+def absolutes_long():
+    """Absolutely positioned boxes taller than the rest of the page (continued on the following pages), alone, two of
+    them, inside a relatively positioned block, with enough in-flow content after them."""
+    for shape, alines, pre, height in itertools.product(('plain', 'two', 'in-relative'), (4, 9, 16), (0, 2), (50, 80)):
+        w = Words()
+
+        def ab(left):
+            lines = '<br>'.join(w.take(1, 'oof', ('positioned',))[0] for _ in range(alines))
+            ids = [i for g in w.groups[-alines:] for i in g['words']]
+            del w.groups[-alines:]
+            w.groups.append({'kind': 'oof', 'words': ids, 'ctx': ['positioned']})
+            return f'<div style="position:absolute;left:{left}px;width:50px">{lines}</div>'
+        body = ''.join(f'<p>{w.take(1)[0]}</p>' for _ in range(pre))
+        if shape == 'plain':
+            body += ab(100)
+        elif shape == 'two':
+            body += ab(100) + f'<p>{w.take(1)[0]}</p>' + ab(150)
+        else:
+            body += f'<div style="position:relative">{ab(100)}<p>{w.take(1)[0]}</p></div>'
+        body += ''.join(f'<p>{w.take(1)[0]}</p>' for _ in range(3 * alines))
+        yield f'abs-long-{shape}-l{alines}-p{pre}-H{height}', page(body, 200, height), w.groups
+
+
+def max_lines_blocks():
+    """max-lines (with its implied continue: discard): the first N lines of the block are rendered, the others are
+    dropped - also through nested blocks. When the block crosses a page bottom WeasyPrint restarts the count on the
+    next page (lines beyond N are then rendered); the property only speaks about text that CSS says is rendered, so on
+    the small page the lines beyond N are left unconstrained ('rep') and only the first N are required."""
+    for limit, shape, pre, height in itertools.product((1, 2, 4), ('para', 'nested', 'two-paras'), (0, 3), (50, 200)):
+        w = Words()
+        body = ''.join(f'<p>{w.take(1)[0]}</p>' for _ in range(pre))
+        count = [0]
+
+        def line():
+            count[0] += 1
+            return w.take(1, 'flow' if count[0] <= limit else ('drop' if height == 200 else 'rep'))[0]
+        if shape == 'para':
+            inner = '<br>'.join(line() for _ in range(6))
+        elif shape == 'nested':
+            inner = '<div><p>' + '<br>'.join(line() for _ in range(3)) + '</p><p>' + '<br>'.join(
+                line() for _ in range(3)) + '</p></div>'
+        else:
+            inner = '<p>' + '<br>'.join(line() for _ in range(2)) + '</p><p>' + '<br>'.join(
+                line() for _ in range(4)) + '</p>'
+        body += f'<div style="max-lines:{limit}">{inner}</div><p>{w.take(1)[0]}</p>'
+        yield f'max-lines-{limit}-{shape}-p{pre}-H{height}', page(body, 200, height), w.groups
+
+
+FAMILIES = [inline_floats, absolutes_long, max_lines_blocks, footnotes_in_columns, floats_definite, table_spans, footer_tables, column_spans,
             footnotes_plain, floats_long, forced_breaks_in_tables, padded_containers]
 
 
